@@ -105,7 +105,7 @@ class BladeStormComponent(SkillComponent, KeydownSkillTrait, CooldownValidityTra
 
     @view_method
     def validity(self, state: BladeStormState):
-        return self.validity_in_cooldown_trait(state)
+        return self.validity_in_keydown_trait(state)
 
     @view_method
     def keydown(self, state: BladeStormState):
